@@ -906,7 +906,8 @@ func constPrefix(fi *FuncInfo) (string, bool) {
 func c19Keys(p *Prog, r *Report) {
 	fk, ck := p.Func(kFileKey), p.Func(kCFKey)
 	if fk == nil || ck == nil {
-		r.Undecided("C19.c", "key-builders", "", "key builders of repository/file and repository/content_file not found")
+		// no key method of the repository: the keys are judged where they are handed to the Badger layer
+		c19KeysAtCallSites(p, r)
 		return
 	}
 	a, okA := constPrefix(fk)
@@ -971,4 +972,141 @@ func c19GetAll(p *Prog, r *Report) {
 		cons := kFileGetAll + "#" + types.ExprString(s.Call.Fun)
 		f.SiteConsumed(r, "C19.d", cons, ga, s, flowOpts{Class: true})
 	}
+}
+
+// keyPrefixOf evaluates the constant prefix of a key expression: prefix is what the key certainly starts with,
+// whole tells whether that is the entire key. Constants, "const" + x, []byte(x), append(x, y...), fmt.Sprintf with a
+// constant format, and functions / methods of the package with one return (receiver and parameters substituted).
+func (p *Prog) keyPrefixOf(fi *FuncInfo, e ast.Expr, bind map[types.Object]ast.Expr, bindFi map[types.Object]*FuncInfo, depth int) (prefix string, whole, ok bool) {
+	info := fi.Pkg.TypesInfo
+	e = ast.Unparen(e)
+	if depth > 16 {
+		return "", false, false
+	}
+	if s, k := constStr(info, e); k {
+		return s, true, true
+	}
+	switch x := e.(type) {
+	case *ast.Ident:
+		if o := objOf(info, x); o != nil && bind[o] != nil {
+			return p.keyPrefixOf(bindFi[o], bind[o], bind, bindFi, depth+1)
+		}
+		return "", false, true // an id: contributes nothing certain
+	case *ast.SelectorExpr:
+		return "", false, true
+	case *ast.BinaryExpr:
+		if x.Op == token.ADD {
+			a, aw, aok := p.keyPrefixOf(fi, x.X, bind, bindFi, depth+1)
+			if !aok {
+				return "", false, false
+			}
+			if !aw {
+				return a, false, true
+			}
+			b, bw, bok := p.keyPrefixOf(fi, x.Y, bind, bindFi, depth+1)
+			if !bok {
+				return a, false, true
+			}
+			return a + b, bw, true
+		}
+	case *ast.CallExpr:
+		if tv, isT := info.Types[x.Fun]; isT && tv.IsType() && len(x.Args) == 1 {
+			return p.keyPrefixOf(fi, x.Args[0], bind, bindFi, depth+1)
+		}
+		if id, isId := x.Fun.(*ast.Ident); isId && id.Name == "append" && len(x.Args) >= 1 {
+			a, aw, aok := p.keyPrefixOf(fi, x.Args[0], bind, bindFi, depth+1)
+			if !aok {
+				return "", false, false
+			}
+			if !aw || len(x.Args) < 2 {
+				return a, aw && len(x.Args) < 2, true
+			}
+			b, bw, bok := p.keyPrefixOf(fi, x.Args[1], bind, bindFi, depth+1)
+			if !bok {
+				return a, false, true
+			}
+			return a + b, bw && len(x.Args) == 2, true
+		}
+		if isFunc(info, x, "fmt", "Sprintf") && len(x.Args) >= 1 {
+			if s, k := constStr(info, x.Args[0]); k {
+				if i := strings.Index(s, "%"); i >= 0 {
+					return s[:i], false, true
+				}
+				return s, true, true
+			}
+		}
+		if callee := p.staticCallee(fi.Pkg, x); callee != nil && callee.Pkg == fi.Pkg && callee.Decl.Body != nil && len(callee.Decl.Body.List) == 1 {
+			if rs, isRet := callee.Decl.Body.List[0].(*ast.ReturnStmt); isRet && len(rs.Results) == 1 {
+				nb, nf := map[types.Object]ast.Expr{}, map[types.Object]*FuncInfo{}
+				for k, v := range bind {
+					nb[k], nf[k] = v, bindFi[k]
+				}
+				args := argExprs(x, callee)
+				for i, po := range paramObjs(callee) {
+					if po != nil && args[i] != nil {
+						nb[po], nf[po] = args[i], fi
+					}
+				}
+				return p.keyPrefixOf(callee, rs.Results[0], nb, nf, depth+1)
+			}
+		}
+	}
+	return "", false, false
+}
+
+// c19KeysAtCallSites: the key spaces of the two repositories, read off the keys they hand to the Badger layer.
+func c19KeysAtCallSites(p *Prog, r *Report) {
+	dbCalls := []string{"(*internal/db/badger.Manager).GetAll", "(internal/db/badger.QueryManager).GetAll", "(internal/db/badger.QueryManager).Get", "(internal/db/badger.QueryManager).Set",
+		"(internal/db/badger.QueryManager).Delete", "(*internal/db/badger.Manager).Get", "(*internal/db/badger.Manager).Set", "(*internal/db/badger.Manager).Delete"}
+	prefixes := map[string]map[string]bool{}
+	scan, scanWhole := "", false
+	var scanAt ast.Node
+	sites := 0
+	for _, pk := range []string{"internal/repository/file", "internal/repository/content_file"} {
+		prefixes[pk] = map[string]bool{}
+		for _, k := range sortedFuncKeys(p) {
+			fi := p.Funcs[k]
+			if fi.Decl == nil || fi.Decl.Body == nil || shortPath(fi.Pkg.PkgPath) != pk {
+				continue
+			}
+			ast.Inspect(fi.Decl.Body, func(x ast.Node) bool {
+				c, ok := x.(*ast.CallExpr)
+				if !ok || len(c.Args) < 1 || !p.callIs(fi.Pkg, c, dbCalls...) {
+					return true
+				}
+				sites++
+				pref, whole, ok := p.keyPrefixOf(fi, c.Args[0], map[types.Object]ast.Expr{}, map[types.Object]*FuncInfo{}, 0)
+				if !ok {
+					r.Undecided("C19.c", "key-builders", p.pos(c), "the key "+types.ExprString(c.Args[0])+" does not start with a constant prefix the rule can compute")
+					return true
+				}
+				prefixes[pk][pref] = true
+				if sel, isSel := c.Fun.(*ast.SelectorExpr); isSel && sel.Sel.Name == "GetAll" && pk == "internal/repository/file" {
+					scan, scanWhole, scanAt = pref, whole, c
+				}
+				return true
+			})
+		}
+	}
+	one := func(m map[string]bool) (string, bool) {
+		if len(m) != 1 {
+			return "", false
+		}
+		for k := range m {
+			return k, true
+		}
+		return "", false
+	}
+	a, okA := one(prefixes["internal/repository/file"])
+	b, okB := one(prefixes["internal/repository/content_file"])
+	if !okA || !okB {
+		r.Undecided("C19.c", "key-builders", "", fmt.Sprintf("the keys of a repository do not share one constant prefix (%v / %v)", prefixes["internal/repository/file"], prefixes["internal/repository/content_file"]))
+		return
+	}
+	r.Floor("C19.c", "badger-key-sites", sites, 6)
+	r.Tables["key_prefixes"] = map[string]string{"internal/repository/file": a, "internal/repository/content_file": b}
+	disjoint := a != "" && b != "" && !strings.HasPrefix(a, b) && !strings.HasPrefix(b, a)
+	r.Check(disjoint, "C19.c", "key-prefixes", "", fmt.Sprintf("%q and %q are prefix-free", a, b),
+		fmt.Sprintf("key prefixes %q and %q overlap: the version-record scan would read content records (or vice versa)", a, b))
+	r.Check(scanAt != nil && scanWhole && scan == a, "C19.c", kFileGetAll+"#scan-prefix", p.pos(scanAt), "GetAll scans exactly the version-record prefix", "GetAll does not scan exactly the version-record key space")
 }
